@@ -7,7 +7,7 @@
     and by correspondence with the file-system model: NOT theorems (partial). *)
 From Coq Require Import List String Ascii Bool Arith Permutation Sorted.
 From Spil Require Import Base.Str Base.Dict Base.Outcome Regex.Re Conf.Conf Conf.Routing Conf.WF Sid.Sid
-  Search.Unfold Search.FindList Search.Finders Search.FindListProofs Search.FindersProofs FS.Fs Data.Data Data.VersionProofs.
+  Search.Unfold Search.FindList Search.Finders Search.FindListProofs Search.FindersProofs FS.Fs Data.Data Data.VersionProofs Data.VersionOrderProofs Data.DataSpecProofs.
 From SpilGen Require Hamlet.
 Import ListNotations.
 Local Open Scope string_scope.
@@ -39,6 +39,32 @@ Print Assumptions C18_parse_format.
 Theorem C18_three_digits : forall n, n < 1000 -> String.length (fmt_03d n) = 3.
 Proof. exact fmt_03d_length. Qed.
 Print Assumptions C18_three_digits.
+
+(* the order used by ">" (segment by segment, as strings) IS the numeric order on versions *)
+Theorem C18_version_order_is_numeric : forall pre post n m, n < 1000 -> m < 1000 ->
+  segs_ltb (pre ++ [vname n] ++ post)%list (pre ++ [vname m] ++ post)%list = Nat.ltb n m.
+Proof. exact version_order_is_numeric. Qed.
+Print Assumptions C18_version_order_is_numeric.
+
+(* so the ">" answer of ANY finder carries the numerically greatest version among the candidates of its group *)
+Theorem C18_last_is_greatest : forall Ld star qs l q0 rest founds pre,
+  sorted_search_g Ld star qs = Ok l -> qs = q0 :: rest ->
+  index_of ">" (split_c "/" (s_string q0)) = Some (List.length pre) ->
+  founds_of Ld star qs = Ok founds ->
+  forall r e post n m, In r l -> In e founds ->
+    split_c "/" r = (pre ++ [vname n] ++ post)%list -> split_c "/" e = (pre ++ [vname m] ++ post)%list ->
+    n < 1000 -> m < 1000 -> m <= n.
+Proof. exact sorted_search_g_greatest_version. Qed.
+Print Assumptions C18_last_is_greatest.
+
+(* get_last(key): the first answer of FindInAll for the Sid with key := ">", when it carries a value for the key; else the empty Sid *)
+Theorem C18_get_last : forall Ld Rt F x key y, get_last Ld Rt F x key = Ok y ->
+  y = empty_sid \/
+  exists k q l s v, effective_key x key = Some k /\
+    get_with_kw Ld x [(k, Some ">")] = Ok q /\ find_all Ld Rt F (s_string q) = Ok l /\
+    hd_error l = Some s /\ Sid Ld s = Ok y /\ sid_get y k = Some v /\ truthy v = true.
+Proof. exact get_last_cases. Qed.
+Print Assumptions C18_get_last.
 
 (* beyond the last representable version the result is the empty Sid: instance on today's configuration *)
 Example C18_beyond_last :
